@@ -49,7 +49,7 @@ theorem inv_settle (cfg : Cfg) (st0 : State) (o : Out) (p' : Prog) (h' : Handle)
       simp [settle, h2, h3, Inv, hc, h1, hspec, hrun]
     | inr hh =>
       obtain ⟨h1, h2⟩ := hh
-      cases he : st0.ended <;> simp [settle, he, h2, Inv, hc, h1, hspec, hrun]
+      simp [settle, h2, Inv, hc, h1, hspec, hrun]
   | parked t g =>
     simp only [denK] at hden
     have hspec := (Option.some.inj hden).symm
